@@ -375,6 +375,47 @@ func (fx *FuncCtx) sortModel(st *State, callee *types.Func, call *ast.CallExpr) 
 		}
 		st.assume(Implies(res, Term{fmt.Sprintf("(forall ((%s Int) (%s Int)) (=> (and (<= 0 %s) (< %s %s) (< %s %s)) (not %s)))", qi, qj, qi, qi, qj, qj, sv.Len.S, lessP.S), SBool}))
 		return res, true
+	case "Sort":
+		// sort.Sort(sort.Reverse(sort.Float64Slice(d))) / sort.IntSlice: d ends up in decreasing order
+		rev, ok := unparen(call.Args[0]).(*ast.CallExpr)
+		if !ok || len(rev.Args) != 1 {
+			return nil, false
+		}
+		if sel, ok := rev.Fun.(*ast.SelectorExpr); !ok || sel.Sel.Name != "Reverse" {
+			return nil, false
+		}
+		conv, ok := unparen(rev.Args[0]).(*ast.CallExpr)
+		if !ok || len(conv.Args) != 1 {
+			return nil, false
+		}
+		if sel, ok := conv.Fun.(*ast.SelectorExpr); !ok || (sel.Sel.Name != "Float64Slice" && sel.Sel.Name != "IntSlice") {
+			return nil, false
+		}
+		sv, ok := fx.eval(st, conv.Args[0]).(SliceV)
+		if !ok {
+			return nil, false
+		}
+		fx.checkStoreRange(st, sv, IntLit(0), sv.Len, call)
+		es := fx.elemSort(sv.Elem)
+		name := memName(sv.Elem)
+		m := fx.heapGet(st, name, fx.memSort(sv.Elem))
+		old := Select(m, sv.Rid, ArraySort(SInt, es))
+		row := fx.freshConst("rsorted_row", ArraySort(SInt, es))
+		q := fx.freshName("q_s")
+		inr := fmt.Sprintf("(and (<= %s %s) (< %s (+ %s %s)))", sv.Off.S, q, q, sv.Off.S, sv.Len.S)
+		st.assume(Term{fmt.Sprintf("(forall ((%s Int)) (=> (not %s) (= (select %s %s) (select %s %s))))", q, inr, row.S, q, old.S, q), SBool})
+		q2 := fx.freshName("q_t")
+		a := Select(row, Add(sv.Off, Term{q, SInt}), es)
+		b := Select(row, Add(sv.Off, Term{q2, SInt}), es)
+		var ge Term
+		if es == SInt {
+			ge = Ge(a, b)
+		} else {
+			ge = Not(fx.floatOp(tokenLSS, a, b, es, call).(Term))
+		}
+		st.assume(Term{fmt.Sprintf("(forall ((%s Int) (%s Int)) (=> (and (<= 0 %s) (<= %s %s) (< %s %s)) %s))", q, q2, q, q, q2, q2, sv.Len.S, ge.S), SBool})
+		st.heap[name] = fx.define(name, Store(m, sv.Rid, row))
+		return TupleV{}, true
 	case "Float64s", "Ints":
 		sv, ok := fx.eval(st, call.Args[0]).(SliceV)
 		if !ok {
